@@ -176,6 +176,8 @@ def d5(ctx, prog):
 
 
 def run(ctx, prog):
+    from .. import universe as _uni0
+    _uni0.inline_base_entry_points(ctx, prog)
     ctx.rule('C14-D1', 'matcher refuses before build (first statement); build() sets is_build last, after running the build analysis and copying the profile; starts False')
     ctx.rule('C14-D2', 'profile hand-over: matcher reads exactly what build() copies, name for name (templates <- results); build side produces each')
     ctx.rule('C14-D3', 'template rows selected by class position (index-kind rule shared with C12-D2)')
